@@ -46,6 +46,21 @@ func exprObjKey(info *types.Info, e ast.Expr) string {
 	return ""
 }
 
+// errVarOf: the variable an error test is about -- a plain variable, or an error-typed field of a struct value
+// (x.err), which stands for "the field err of that struct type" (one instance per function is assumed; the flow
+// only ever tracks a field after an error was stored into it, see consumes).
+func errVarOf(info *types.Info, e ast.Expr) types.Object {
+	switch x := ast.Unparen(e).(type) {
+	case *ast.Ident:
+		return objOf(info, x)
+	case *ast.SelectorExpr:
+		if sel := info.Selections[x]; sel != nil && sel.Kind() == types.FieldVal && isErrorType(sel.Obj().Type()) {
+			return sel.Obj()
+		}
+	}
+	return nil
+}
+
 type condInfo struct {
 	kind string // "nonnil", "isnil", "is", "as", ""
 	obj  types.Object
@@ -71,7 +86,7 @@ func classifyCond(info *types.Info, e ast.Expr) condInfo {
 				v = x.Y
 			}
 			if v != nil {
-				if o := objOf(info, v); o != nil && isErrorType(o.Type()) {
+				if o := errVarOf(info, v); o != nil && isErrorType(o.Type()) {
 					if x.Op == token.NEQ {
 						return condInfo{kind: "nonnil", obj: o}
 					}
@@ -80,7 +95,7 @@ func classifyCond(info *types.Info, e ast.Expr) condInfo {
 			}
 			// err == io.EOF style comparison with a sentinel
 			for _, pair := range [][2]ast.Expr{{x.X, x.Y}, {x.Y, x.X}} {
-				if o := objOf(info, pair[0]); o != nil && isErrorType(o.Type()) {
+				if o := errVarOf(info, pair[0]); o != nil && isErrorType(o.Type()) {
 					if k := exprObjKey(info, pair[1]); k != "" && !isNilIdent(info, pair[1]) {
 						if x.Op == token.EQL {
 							return condInfo{kind: "is", obj: o, arg: k}
@@ -93,7 +108,7 @@ func classifyCond(info *types.Info, e ast.Expr) condInfo {
 	case *ast.CallExpr:
 		if sel, ok := x.Fun.(*ast.SelectorExpr); ok && len(x.Args) == 2 {
 			if fn, ok := info.Uses[sel.Sel].(*types.Func); ok && fn.Pkg() != nil && fn.Pkg().Path() == "errors" {
-				o := objOf(info, x.Args[0])
+				o := errVarOf(info, x.Args[0])
 				if o == nil {
 					return condInfo{}
 				}
